@@ -88,6 +88,11 @@ def ueff(P):
     return -F(1, 2) * (P["x"] ** 2 + P["y"] ** 2) + grav(P)
 
 
+def omega(P):
+    mu, m1 = P["mu"], 1 - P["mu"]
+    return F(1, 2) * (P["x"] ** 2 + P["y"] ** 2) + m1 / P["r1"] + mu / P["r2"]
+
+
 def jacobi_raw(P):
     mu, m1 = P["mu"], 1 - P["mu"]
     return P["x"] ** 2 + P["y"] ** 2 + 2 * (m1 / P["r1"] + mu / P["r2"]) - (P["vx"] ** 2 + P["vy"] ** 2 + P["vz"] ** 2)
@@ -110,6 +115,7 @@ def exact_part(ck: Check):
         raise MachineryError("Field model emitted too few witnesses")
     nx = 0
     worst = {"field": 0.0, "jacobian": 0.0, "energy": 0.0, "jacobi": 0.0}
+    last_by_mu = {}
     for rec in recs:
         w = rec["w"]
         P = point(w)
@@ -118,7 +124,7 @@ def exact_part(ck: Check):
         jsel = [Jx[3][0], Jx[3][1], Jx[3][2], Jx[4][1], Jx[4][2], Jx[5][2]]
         ok = ([modp(v) for v in Fx] == list(rec["F"]) and [modp(v) for v in jsel] == list(rec["J"])
               and modp(Ex) == rec["E"] and modp(Cx) == rec["C"]
-              and modp(kinetic(P)) == rec["T"] and modp(grav(P)) == rec["G"] and modp(ueff(P)) == rec["U"]
+              and modp(kinetic(P)) == rec["T"] and modp(grav(P)) == rec["G"] and modp(ueff(P)) == rec["U"] and modp(omega(P)) == rec["Om"]
               and [modp(P[k]) for k in ("x", "y", "z", "mu", "r1", "r2")] == list(rec["pt"]))
         if not ok:
             raise MachineryError(f"Fraction evaluator disagrees with Field.tla on witness {w}")
@@ -167,10 +173,44 @@ def exact_part(ck: Check):
                                  ("jacobi_to_energy(energy_to_jacobi)", energy_mod.jacobi_to_energy(energy_to_jacobi(E_code)), Ex)):
             e = relerr(got, exact)
             worst["energy_split"] = max(worst.get("energy_split", 0.0), e)
+            ck.count(("energy-api", name, json.dumps(w, sort_keys=True)), nontriv)
             if e > 1e-10:
                 spatial = P["z"] != 0
                 ck.violation(f"{name}|differs-from-the-first-integral-split" + ("-spatial" if spatial else ""),
                              f"{name} = {float(got)!r} but the exact value is {float(exact)!r} at witness {w} (z = {float(P['z'])})", case)
+        # planar witnesses: the 2-D pseudo-potential and the zero-velocity surface (TLC: PseudoPotentialConsistent)
+        if P["z"] == 0:
+            pairs = [("pseudo_potential_at_point", energy_mod.pseudo_potential_at_point(st[0], st[1], mu), omega(P))]
+            Cx_f = float(Cx)
+            _old = np.seterr(all="ignore")          # a grid node may sit on a primary
+            X, Y, Zg = energy_mod.hill_region(mu, Cx_f, x_range=(st[0], st[0] + 0.25), y_range=(st[1], st[1] + 0.5), n_grid=3)
+            pairs += [("hill_region[corner]", Zg[0, 0], omega(P) - Cx / 2), ("hill_region[corner]=v^2/2", Zg[0, 0], kinetic(P))]
+            for (iy, ix) in ((0, 2), (2, 0), (1, 1), (2, 2)):      # rows follow y, columns follow x (np.meshgrid default)
+                ref = energy_mod.pseudo_potential_at_point(X[iy, ix], Y[iy, ix], mu) - Cx_f / 2
+                if np.isfinite(ref) and abs(ref) < 1e6:            # a grid node may sit on a primary
+                    pairs.append(("hill_region[grid]", Zg[iy, ix], ref))
+                pairs.append(("hill_region[axes]", abs(X[iy, ix] - (st[0] + 0.125 * ix)) + abs(Y[iy, ix] - (st[1] + 0.25 * iy)), F(0)))
+            np.seterr(**_old)
+            for name, got, exact in pairs:
+                e = relerr(got, exact)
+                worst["energy_split"] = max(worst.get("energy_split", 0.0), e)
+                ck.count(("energy-api", name, json.dumps(w, sort_keys=True)), True)
+                if e > 1e-10:
+                    ck.violation(f"{name}|differs-from-the-pseudo-potential",
+                                 f"{name} = {float(got)!r} but the exact value is {float(exact)!r} at planar witness {w}", case)
+        # the Jacobi-drift measure used by the manifold energy filter, between two witnesses of the same mass parameter
+        prev = last_by_mu.get(P["mu"])
+        if prev is not None:
+            Pa, sta, Ca = prev
+            got = energy_mod._max_rel_energy_error(np.array([sta, st, sta]), mu)
+            exact = abs(Cx - Ca) / abs(Ca) if Ca != 0 else abs(Cx - Ca)
+            e = relerr(got, exact)
+            worst["energy_split"] = max(worst.get("energy_split", 0.0), e)
+            ck.count(("energy-api", "_max_rel_energy_error", json.dumps(w, sort_keys=True)), True)
+            if e > 1e-10:
+                ck.violation("_max_rel_energy_error|not-the-relative-jacobi-deviation",
+                             f"_max_rel_energy_error([a, b, a]) = {got!r}, exact |C_b - C_a| / |C_a| = {float(exact)!r} (witness {w})", case)
+        last_by_mu[P["mu"]] = (P, st, Cx)
         if len(ck.cov["samples"]) < 2 and nontriv:
             ck.sample({"witness": w, "state": st.tolist(), "mu": mu, "ax_code": float(f_code[3]), "ax_exact": str(Fx[3]),
                        "J30_code": float(J_code[3, 0]), "J30_exact": str(Jx[3][0])})
